@@ -95,6 +95,24 @@ def gen_graph(rng, n, cyclic=False):
     return mods
 
 
+def shadow_graph(name, variant):
+    """m0 includes m1, which defines a filter named like a built-in one (native or of the prelude); m0 calls it unqualified -
+    from another definition and, in the second variant, through a third module that includes m0"""
+    m0, m1, m2 = Mod("m0"), Mod("m1"), Mod("m2")
+    ar1 = name in NATIVE1
+    m1.defs.append([name, ["$x"] if ar1 else [], "[\"m1\", $x]" if ar1 else "\"m1\""])
+    call = name + ("(2)" if ar1 else "")
+    if variant == 0:
+        m0.deps.append(("include", m1, "a1"))
+        m0.defs.append(["f", [], "[(.), (%s)]" % call])
+        return [m0, m1]
+    m2.deps.append(("include", m1, "a1"))
+    m2.defs.append(["g", [], "[(%s), (. | %s)]" % (call, call)])
+    m0.deps.append(("import", m2, "a2"))
+    m0.defs.append(["f", [], "[(.), (a2::g)]"])
+    return [m0, m2, m1]
+
+
 def module_text(m):
     out = []
     for kind, t, alias in m.deps:
@@ -193,8 +211,8 @@ def custom(ctx):
     distinct = set()
     n = 120 if tier == "quick" else 2000
     jobs, meta = [], []
-    for gi in range(n):
-        mods = gen_graph(rng, rng.randint(1, 5))
+    for gi in range(n + len(NATIVE0 + NATIVE1) * 2):
+        mods = gen_graph(rng, rng.randint(1, 5)) if gi < n else shadow_graph((NATIVE0 + NATIVE1)[(gi - n) // 2], (gi - n) % 2)
         d = tempfile.mkdtemp(prefix="g%d-" % gi, dir=base)
         for m in mods:
             with open(os.path.join(d, m.name + ".jq"), "w") as f:
